@@ -92,8 +92,9 @@ def run(prop, tier, seed):
     traces += [t for t in pmap(_ttl, tj, procs=10) if t is not None]
     nj = []
     for kind in KINDS:
-        tid += 1
-        nj.append((kind, seed, tid))
+        for variant in (0, 1):          # fresh decorator object per function / one decorator object for both
+            tid += 1
+            nj.append((kind, 2 * seed + variant, tid))
     traces += pmap(_names, nj, procs=5)
     tid += 1
     traces += pmap(_stamp, [(seed, tid)], procs=1)
